@@ -79,6 +79,21 @@ Section Mont.
     replace (r * (B * B) * BI * BI) with (r * (B * BI) * (B * BI)) by ring.
     rewrite B_BI. rewrite !Z.mul_1_r. reflexivity.
   Qed.
+  (* ... and the other direction: leaving Montgomery form and entering it again is the identity on canonical elements *)
+  Theorem mg_from_to e : 0 <= e < p -> 0 <= mg_lift p e < p /\ mg_to p (mg_lift p e) = e.
+  Proof.
+    intros He. unfold mg_lift. assert (0 <= e < p * p) as Hc by nia.
+    destruct (mg_redc_spec _ Hc) as [Hr Heq]. split; auto.
+    unfold mg_to.
+    assert (0 <= mg_B2p p < p) as HB2 by (unfold mg_B2p; apply Z.mod_pos_bound; lia).
+    assert (0 <= mg_redc p e * mg_B2p p < p * p) as Hc2 by nia.
+    rewrite wrapu_id by (try lia; change (2 ^ 32) with 4294967296; nia).
+    destruct (mg_redc_spec _ Hc2) as [Hr2 Heq2].
+    apply (eqm_small p); [| lia | lia].
+    rewrite Heq2. rewrite (mod_eqm p). rewrite Heq. rewrite (mod_eqm p). rewrite B2p_eqm.
+    replace (e * BI * (B * B) * BI) with (e * (B * BI) * (B * BI)) by ring.
+    rewrite B_BI. rewrite !Z.mul_1_r. reflexivity.
+  Qed.
   (* the stored image of a canonical residue is r * 2^16 mod p *)
   Theorem mg_to_value r : 0 <= r < p -> mg_to p r = (r * B) mod p.
   Proof.
@@ -97,7 +112,9 @@ Section Mont.
     match s with
     | SInteger => True
     | SF prec => True
-    | SI T => bits T = 64 /\ (sg T = false -> 0 <= a)
+    | SI T => (bits T = 64 /\ (sg T = false -> 0 <= a)) \/
+              (bits T <> 64 /\ if sg T then - 2 ^ 63 <= a < 2 ^ 63 else 0 <= a < 2 ^ 64)     (* generic template: int8 .. uint32 *)
+    | SLL sgn => if sgn then - 2 ^ 63 <= a < 2 ^ 63 else 0 <= a < 2 ^ 64                     (* generic template: long long *)
     | _ => False
     end.
   Lemma mg_negin_spec x y : residue p y x -> residue p (- y) (mg_negin p x).
@@ -129,10 +146,17 @@ Section Mont.
   Proof.
     assert (forall r, residue p a r -> exists e, Some (mg_to p r) = Some e /\ 0 <= e < p /\ residue p a (mg_lift p e)) as Fin.
     { intros r HR. destruct (mg_roundtrip r (proj1 HR)) as [H1 H2]. eexists; split; [reflexivity|]. split; auto. rewrite H2; exact HR. }
-    destruct s as [T|sprec| |K|sgn]; cbn [mg_src_ok mg_init]; intros H; try contradiction.
-    - destruct H as [Hb Hu]. rewrite Hb. cbn [Z.eqb Pos.eqb]. destruct (sg T) eqn:HsT.
-      + apply Fin. apply signed_fin. apply abs_rem_residue.
-      + apply Fin. apply residue_mod; lia.
+    assert (forall sgn : bool, (if sgn then - 2 ^ 63 <= a < 2 ^ 63 else 0 <= a < 2 ^ 64) ->
+                        exists e, mg_generic p sgn a = Some e /\ 0 <= e < p /\ residue p a (mg_lift p e)) as Gen.
+    { intros sgn Hr. unfold mg_generic. destruct sgn.
+      - rewrite (cast_i64_id a) by lia. apply Fin. apply signed_fin. apply abs_rem_residue.
+      - rewrite (cast_id u64 a) by (unfold wf, tmin, tmax; cbn; lia). apply Fin. apply residue_mod; lia. }
+    destruct s as [T|sprec| |K|sgn]; cbn [mg_src_ok mg_init]; intros H; try contradiction; [| | | apply Gen; exact H].
+    - destruct H as [[Hb Hu]|[Hb Hr]].
+      + rewrite Hb. cbn [Z.eqb Pos.eqb]. destruct (sg T) eqn:HsT.
+        * apply Fin. apply signed_fin. apply abs_rem_residue.
+        * apply Fin. apply residue_mod; lia.
+      + destruct (Z.eqb_spec (bits T) 64); [contradiction|]. apply Gen; exact Hr.
     - destruct (sprec =? 53).
       + apply Fin. apply signed_fin. replace (Z.rem (Z.abs a) p) with (Z.abs a mod p) by (symmetry; apply Z.rem_mod_nonneg; lia).
         apply residue_mod; lia.
